@@ -74,6 +74,7 @@ G0(s) == [ sets |-> << >>, pkt |-> << >>, recvMax |-> << >>, blockVsc |-> s.vscI
            forged |-> {},
            failedLaunch |-> << >>,          \* C19: consumer |-> its record right after its launch failed in the current block
            stoppedAtStart |-> {},
+           launchLog |-> << >>,             \* MBT: launch outcomes of the current provider block, in order
            expXfer |-> << >> ]              \* C16: consumer chain |-> denom |-> amount its end-block must hand to the transfer module          \* C11: channels of consumers that were already stopped when the current provider block began                  \* consumer chains that behaved maliciously (their own invariants are not claimed)
 
 \* flattened ids of the time-queue entries that are due at time `now`
@@ -82,6 +83,15 @@ FlattenDue(q, now) ==
   IN  F[Len(q)]
 QueuedIds(q) == UNION { SeqToSet(q[i].ids) : i \in DOMAIN q }
 Take(s, n) == SubSeq(s, 1, Min2(n, Len(s)))
+FlattenAll(q) ==
+  LET F[i \in 0..Len(q)] == IF i = 0 THEN << >> ELSE F[i-1] \o q[i].ids
+  IN  F[Len(q)]
+\* a time queue q (ordered by time) becomes q2 by handing out the due entries in order, at most 200 of them;
+\* whatever is left keeps its order (and its time: see the *_QueueExact / *_OnePending invariants)
+ConsumedUpTo200(q, q2, now) ==
+  LET all == FlattenAll(q)  n == Min2(200, Len(FlattenDue(q, now)))
+  IN  /\ \A i \in 1..(Len(q) - 1) : q[i].t < q[i+1].t
+      /\ FlattenAll(q2) = SubSeq(all, n + 1, Len(all))
 
 
 NextG(e, np) ==
@@ -91,7 +101,8 @@ NextG(e, np) ==
            LET c == e.args.c IN
            [g EXCEPT !.sets = (c :> (0 :> KP(np.cons[c].cvs))) @@ g.sets,
                      !.pkt  = (c :> << >>) @@ g.pkt,
-                     !.nLaunch = g.nLaunch + 1]
+                     !.nLaunch = g.nLaunch + 1,
+                     !.launchLog = Append(g.launchLog, [a |-> e.a, c |-> c])]
       [] e.a = "PQueueVSC" ->
            LET c == e.args.c
                old == IF c \in DOMAIN g.sets THEN g.sets[c] ELSE << >>
@@ -109,8 +120,9 @@ NextG(e, np) ==
            [g EXCEPT !.stoppedAtStart = { np.cons[c].chan : c \in { c2 \in DOMAIN np.cons : np.cons[c2].phase \in {"stopped", "deleted"} /\ np.cons[c2].chan # "" } },
                      !.blockVsc = np.vscId, !.lpsPrev = np.lps, !.expSent = << >>,
                      !.dueSeq = << >>, !.nLaunch = 0, !.remSeq = << >>, !.nRemove = 0, !.failedLaunch = << >>]
-      [] e.a = "PLaunchDue" -> [g EXCEPT !.dueSeq = Take(FlattenDue(p.launchQ, np.t), 200), !.nLaunch = 0]
-      [] e.a \in {"PLaunchFail"} -> [g EXCEPT !.nLaunch = g.nLaunch + 1, !.failedLaunch = (e.args.c :> np.cons[e.args.c]) @@ g.failedLaunch]
+      [] e.a = "PLaunchDue" -> [g EXCEPT !.dueSeq = Take(FlattenDue(p.launchQ, np.t), 200), !.nLaunch = 0, !.launchLog = << >>]
+      [] e.a \in {"PLaunchFail"} -> [g EXCEPT !.nLaunch = g.nLaunch + 1, !.failedLaunch = (e.args.c :> np.cons[e.args.c]) @@ g.failedLaunch,
+                                              !.launchLog = Append(g.launchLog, [a |-> e.a, c |-> e.args.c])]
       [] e.a = "PRemoveDue" -> [g EXCEPT !.remSeq = Take(FlattenDue(p.removeQ, np.t), 200), !.nRemove = 0]
       [] e.a = "PRemoveOK" -> [g EXCEPT !.nRemove = g.nRemove + 1]
       [] e.a = "PBeginCIS" ->
@@ -149,6 +161,21 @@ NextG2(e, np, g1) ==
     IN [g1 EXCEPT !.firstStop = fs, !.jailSum = g1.jailSum + js,
                   !.maxJ = IF js > g1.maxJ THEN js ELSE g1.maxJ]
 
+\* the provider state after event e: unchanged, a full snapshot, or the previous state with the changed top-level
+\* fields (e.s.d) and the changed consumer records (e.s.dc) replaced
+Without(f, S) == [ x \in DOMAIN f \ S |-> f[x] ]
+DigState(e) ==
+  [ j \in DOMAIN p.dig |->
+      IF j \in {"cons", "prefixes"} THEN e.s.dg[j] @@ Without(p.dig[j], SeqToSet(e.s.dgr[j]))
+      ELSE IF j \in DOMAIN e.s.dg THEN e.s.dg[j] ELSE p.dig[j] ]
+ProvState(e) ==
+  IF Same(e) THEN p
+  ELSE IF Has(e.s, "dc")
+    THEN [ k \in DOMAIN p |-> IF k = "cons" THEN e.s.dc @@ p.cons
+                              ELSE IF k = "dig" /\ Has(e.s, "dg") THEN DigState(e)
+                              ELSE IF k \in DOMAIN e.s.d THEN e.s.d[k] ELSE p[k] ]
+    ELSE e.s
+
 Init ==
   /\ l = 1
   /\ p = Tr[1].s
@@ -160,11 +187,14 @@ Next ==
   /\ l' = l + 1
   /\ LET e == Tr[l + 1] IN
      /\ IF e.a = "Init" THEN p' = e.s /\ cs' = << >>
-        ELSE IF IsProv(e) THEN p' = (IF Same(e) THEN p ELSE e.s) /\ cs' = cs
+        ELSE IF IsProv(e) THEN p' = ProvState(e) /\ cs' = cs
         ELSE p' = p /\ cs' = (IF Same(e) THEN cs ELSE (e.chain :> e.s) @@ cs)
-     /\ LET np == IF IsProv(e) /\ ~Same(e) THEN e.s ELSE p IN g' = NextG2(e, np, NextG(e, np))
+     /\ LET np == IF IsProv(e) THEN ProvState(e) ELSE p IN g' = NextG2(e, np, NextG(e, np))
 
 Spec == Init /\ [][Next]_vars
+
+\* self-test of the delta encoding (traces written with VERIF_DELTACHECK=1 carry the full snapshot as well)
+X_DeltaFaithful == (IsProv(E) /\ Has(E.s, "full")) => p = E.s.full
 
 TraceAccepted == TLCGet("stats").diameter = Len(Tr)
 
@@ -612,6 +642,7 @@ C10_LaunchWhenDue == [][
     /\ (Ev.a = "PLaunchDue") =>
          LET due == FlattenDue(p.launchQ, p'.t) IN
          /\ QueuedIds(p'.launchQ) = QueuedIds(p.launchQ) \ SeqToSet(Take(due, 200))
+         /\ ConsumedUpTo200(p.launchQ, p'.launchQ, p'.t)
          /\ (Len(due) <= 200) => \A i \in DOMAIN p'.launchQ : p'.launchQ[i].t > p'.t
     /\ (Ev.a \in {"PLaunchOK", "PLaunchFail"}) =>
          /\ g.nLaunch < Len(g.dueSeq)
@@ -774,7 +805,14 @@ C20_Apply == [][
                 /\ p'.cons[c].infr.v = p.cons[c].infrQd.v.p /\ ~p'.cons[c].infrQd.present )
     /\ (Ev.a = "PBeginInfraction") =>
          LET due == FlattenDue(p.infrQ, p'.t) IN
-         (Len(due) <= 200) => \A i \in DOMAIN p'.infrQ : p'.infrQ[i].t > p'.t
+         /\ (Len(due) <= 200) => \A i \in DOMAIN p'.infrQ : p'.infrQ[i].t > p'.t
+         /\ ConsumedUpTo200(p.infrQ, p'.infrQ, p'.t)
+         \* exactly the consumers handed out get their pending change applied, once; the others keep theirs
+         /\ \A c \in Cons(p) \cap Cons(p') :
+              IF c \in SeqToSet(Take(due, 200))
+                THEN /\ p.cons[c].infrQd.present /\ ~p'.cons[c].infrQd.present
+                     /\ p'.cons[c].infr.present /\ p'.cons[c].infr.v = p.cons[c].infrQd.v.p
+                ELSE p'.cons[c].infrQd = p.cons[c].infrQd /\ p'.cons[c].infr = p.cons[c].infr
     /\ (Ev.a = "PRemoveOK") => ~p'.cons[Ev.args.c].infrQd.present
   ]_vars
 
@@ -944,7 +982,8 @@ C11_RemoveWhenDue == [][
          /\ p.cons[Ev.args.c].phase = "stopped" /\ p'.cons[Ev.args.c].phase = "deleted"
     /\ (Ev.a = "PRemoveDue") =>
          LET due == FlattenDue(p.removeQ, p'.t) IN
-         (Len(due) <= 200) => \A i \in DOMAIN p'.removeQ : p'.removeQ[i].t > p'.t
+         /\ (Len(due) <= 200) => \A i \in DOMAIN p'.removeQ : p'.removeQ[i].t > p'.t
+         /\ ConsumedUpTo200(p.removeQ, p'.removeQ, p'.t)
     /\ (Ev.a \in {"PRemoveOK", "PRemoveFail"}) => (g.nRemove < Len(g.remSeq) /\ Ev.args.c = g.remSeq[g.nRemove + 1])
     /\ (Ev.a = "PBeginRemove") => g.nRemove = Len(g.remSeq)
   ]_vars
@@ -1267,5 +1306,45 @@ C12_Resolve == [][
     LET c == Ev.args.c  pkt == Ev.res.recv[1] IN
     Ev.res.infrH = (IF pkt.id = 0 THEN p.cons[c].initChainH.v ELSE p.v2h[ToString(pkt.id)])
   ]_vars
+
+(* ======================================================================= *)
+(* MBT  behaviours generated by TLC from MC_KeysGen, replayed on the code   *)
+(* ======================================================================= *)
+\* the model does not distinguish "initialized" from "registered"
+MbtPhaseOk(real, model) == IF model = "registered" THEN real \in {"registered", "initialized"} ELSE real = model
+MbtConsOk(r, x) ==
+  /\ r.valKey = x.valKey /\ r.keyVal = x.keyVal /\ r.toPrune = x.toPrune /\ MbtPhaseOk(r.phase, x.phase)
+
+\* every replayed message has the outcome the model predicts and leaves the consumer's key state the model predicts
+MBT_KeysStep == [][
+  (PStep /\ Has(Ev.args, "mbt")) =>
+    /\ OkTx(Ev) <=> Ev.args.mbt.ok
+    /\ Has(Ev.args.mbt, "c") => MbtConsOk(p'.cons[Ev.args.mbt.c], Ev.args.mbt.st)
+  ]_vars
+
+\* after every replayed block (begin-block launches / deletions, messages, end-block pruning) the key state of every
+\* consumer and the validators' provider keys are the model's
+MBT_KeysTick ==
+  (E.a = "MbtTick") =>
+    /\ \A c \in DOMAIN E.args.exp : c \in Cons(p) /\ MbtConsOk(p.cons[c], E.args.exp[c])
+    /\ DOMAIN p.vals = DOMAIN E.args.prov
+    /\ \A v \in DOMAIN E.args.prov : p.vals[v].pk = E.args.prov[v]
+
+\* ---- lifecycle family (MC_LifecycleGen): records, id counter and the three time queues ----
+MbtLifeFields == {"phase", "owner", "spawn", "spawnSet", "topN", "removalT", "infr", "infrQd"}
+MbtLifeOk(s, x) ==
+  /\ s.nextId = x.nextId
+  /\ DOMAIN s.cons = DOMAIN x.cons
+  /\ \A c \in DOMAIN x.cons : \A f \in MbtLifeFields : s.cons[c][f] = x.cons[c][f]
+  /\ s.launchQ = x.launchQ /\ s.removeQ = x.removeQ /\ s.infrQ = x.infrQ
+
+MBT_LifeStep == [][
+  (PStep /\ Has(Ev.args, "mbt") /\ Has(Ev.args.mbt, "life")) => MbtLifeOk(p', Ev.args.mbt.life)
+  ]_vars
+
+\* after every replayed block: the state the model has after the block's messages, and the launch attempts of its
+\* BeginBlock with their outcomes in the model's order
+MBT_LifeTick ==
+  (E.a = "MbtTick" /\ Has(E.args, "life")) => (MbtLifeOk(p, E.args.life) /\ g.launchLog = E.args.begin)
 
 =============================================================================
